@@ -104,6 +104,11 @@ class Tmatrix(ScatteringTheory):
         # (as floats: the product of integer radii, e.g. int32 nanometres,
         # wraps around)
         rxy, rz = float(rxy), float(rz)
+        if not (0 < rxy < np.inf and 0 < rz < np.inf):
+            # (the Fortran code does not return for such sizes)
+            raise InvalidScatterer(
+                scatterer, "size must be positive and finite for the "
+                "T-matrix code")
         axi = (3/2)**iscyl*(rz*rxy**2)**(1/3.)
         rat = 1
         lam = med_wavelen
